@@ -57,6 +57,13 @@ structure Built where
   total : Nat
 deriving DecidableEq, Repr
 
+instance : DecidableEq (Except BuildErr Built) := fun a b =>
+  match a, b with
+  | .ok x, .ok y => if h : x = y then isTrue (by rw [h]) else isFalse (fun e => h (Except.ok.inj e))
+  | .error x, .error y => if h : x = y then isTrue (by rw [h]) else isFalse (fun e => h (Except.error.inj e))
+  | .ok _, .error _ => isFalse (fun e => by cases e)
+  | .error _, .ok _ => isFalse (fun e => by cases e)
+
 def ofClose : Out (List Entry × Nat) → Except BuildErr Built
   | .ok (sorted, total) => .ok ⟨sorted, total⟩
   | .overflow => .error .overflow
@@ -114,9 +121,6 @@ instance (l : List Signer) (acc : List Entry) : Decidable (Fresh l acc) := by un
 
 theorem any_vk_iff (acc : List Entry) (k : Nat) : acc.any (fun e => e.vk == k) = true ↔ k ∈ acc.map (·.vk) := by
   simp only [List.any_eq_true, beq_iff_eq, List.mem_map]
-  constructor
-  · rintro ⟨e, he, rfl⟩; exact ⟨e, he, rfl⟩
-  · rintro ⟨e, he, rfl⟩; exact ⟨e, he, rfl⟩
 
 theorem regLoop_eq (sd : Nat → Option Nat) :
     ∀ (l : List Signer) (acc : List Entry), (∀ s ∈ l, sd s.pool = some s.stake) →
@@ -227,6 +231,7 @@ theorem build_key {l : List Signer} (hwf : WF l) {b : Built} (hb : build l = .ok
 /-- a party listed twice under two stakes: the LAST stake wins, so the outcome depends on the order — outside
 the honest input space (`WF`), recorded as an observation -/
 theorem dup_party_order_dependent :
-    build [⟨1, 1, 7, 5⟩, ⟨1, 1, 8, 6⟩] ≠ build [⟨1, 1, 8, 6⟩, ⟨1, 1, 7, 5⟩] := by decide
+    build [⟨1, 1, 7, 5⟩, ⟨1, 1, 8, 6⟩] ≠ build [⟨1, 1, 8, 6⟩, ⟨1, 1, 7, 5⟩] := by
+  simp [build, regLoop, stakeOf, closeReg, ofClose]
 
 end RegPaths
